@@ -19,6 +19,9 @@ for m in /verif/selftest/mutants/*.patch; do
   rsync -a --exclude .git /repo/ "$scratch/repo/"
   if ! (cd "$scratch/repo" && patch -p1 -s < "$m"); then echo "selftest: $m does not apply"; fail=1; rm -rf "$scratch"; continue; fi
   out=$(/verif/bin/govc check -repo "$scratch/repo" -outdir "$scratch/out" -noreplay -prop "$prop" -timeout 10 2>&1)
+  if echo "$out" | grep -q "^load error"; then
+    echo "selftest BROKEN MUTANT (does not compile): $(basename "$m")"; echo "$out" | head -2; fail=1; rm -rf "$scratch"; continue
+  fi
   if echo "$out" | grep -q "^VIOLATION property=$prop " && ls "$scratch/out/replay" 2>/dev/null | grep -qF -- "$(echo "$obl" | tr -c 'A-Za-z0-9.#_\n-' '_')"; then
     echo "selftest ok: $(basename "$m") -> $prop $obl"
   else
